@@ -291,6 +291,65 @@ def install(it):
         def _etn(it, a, kw):
             return a[0].cls.name
 
+        @B('re_lang')
+        def _re_lang(it, a, kw):
+            from . import regex
+            pattern = a[0]
+            flags = a[1] if len(a) > 1 else kw.get('flags', 0)
+            mode = a[2] if len(a) > 2 else kw.get('mode', 'full')
+            if not isinstance(pattern, str):
+                pattern = it.getattr(pattern, 'pattern')
+            return regex.Lang(pattern, int(flags), mode)
+
+        @B('in_lang')
+        def _in_lang(it, a, kw):
+            from . import strings
+            sv, lang = a
+            if isinstance(sv, str):
+                return lang.contains(sv)
+            return mk_bool(z3.InRe(strings.zstr(sv), lang.z3()))
+
+        @B('parses_as_float')
+        def _paf(it, a, kw):
+            from . import strings
+            if isinstance(a[0], str):
+                try:
+                    float(a[0])
+                    return True
+                except ValueError:
+                    return False
+            return mk_bool(strings.float_ok(strings.zstr(a[0])))
+
+        @B('parses_as_int')
+        def _pai(it, a, kw):
+            from . import strings
+            if isinstance(a[0], str):
+                try:
+                    int(a[0])
+                    return True
+                except ValueError:
+                    return False
+            return mk_bool(strings.int_ok(strings.zstr(a[0])))
+
+        @B('float_of')
+        def _fo(it, a, kw):
+            from . import strings
+            if isinstance(a[0], str):
+                return float(a[0])
+            return mk_real(strings.float_val(strings.zstr(a[0])))
+
+        @B('int_of')
+        def _io(it, a, kw):
+            from . import strings
+            if isinstance(a[0], str):
+                return int(a[0])
+            return mk_int(strings.int_val(strings.zstr(a[0])))
+
+        @B('strlen')
+        def _strlen(it, a, kw):
+            from . import models
+            return models.py_len(it, a[0])
+
         from . import api_ext
         api_ext.install(it, ns, B)
         return m
